@@ -245,12 +245,62 @@ def nonconstant_goals(rng, rec):
             goals.append(no_bool_leaves(g))
     r["goals"] = goals
     m = r.get("metric")
+
+    def zero_product(e):
+        found = []
+        map_expr(e, lambda x: (found.append(1) if x[0] == "times" and any(_is_expr(a) and a[0] in ("i", "r") and Fraction(a[1]) == 0 for a in x[1:]) else None, x)[1])
+        return bool(found)
+
+    if m and m["kind"] in ("minfinal", "maxfinal") and has_fluent(m["expr"]) and zero_product(m["expr"]):
+        # `f * 0` simplifies to the constant 0: a constant metric is no metric (and `(:metric maximize 0)` is a separate, rare
+        # class: the UP reader's grammar cannot parse it - mechanism reader-raises:up:constant-metric)
+        nf = _ground_num_fluents(rng, r)
+        if nf:
+            m["expr"] = ["plus", rng.choice(nf)[1], ["i", 1]]
     if m and m["kind"] in ("minfinal", "maxfinal") and not has_fluent(m["expr"]):
         nf = _ground_num_fluents(rng, r)
         if nf:
             m["expr"] = ["plus", rng.choice(nf)[1], m["expr"]]
         else:
             r["metric"] = None
+    return r
+
+
+def simple_goals(rec):
+    """Goals without or / imply / iff / quantifiers (the third-party parser behind the AI-planning reader parses the goal with
+    a requirement-less transformer and rejects each of them with PDDLMissingRequirementError, whatever the files declare):
+    such a goal is replaced by its first ground Boolean fluent atom, or dropped when it has none and other goals remain."""
+    r = copy.deepcopy(rec)
+    bools = {f["name"] for f in r["fluents"] if f["type"] == "bool"}
+    heavy = ("or", "implies", "iff", "exists", "forall")
+
+    def is_heavy(g):
+        found = []
+        map_expr(g, lambda e: (found.append(1) if e[0] in heavy else None, e)[1])
+        return bool(found)
+
+    def first_atom(g):
+        found = []
+
+        def fn(e):
+            if e[0] == "f" and e[1] in bools and all(_is_expr(a) and a[0] == "o" for a in e[2:]):
+                found.append(e)
+            return e
+
+        map_expr(g, fn)
+        return found[0] if found else None
+
+    goals = []
+    for g in r["goals"]:
+        if not is_heavy(g):
+            goals.append(g)
+            continue
+        a = first_atom(g)
+        if a is not None:
+            goals.append(a)
+    if not goals and r["goals"]:
+        return rec
+    r["goals"] = goals
     return r
 
 
@@ -312,8 +362,9 @@ def _ground_num_fluents(rng, rec, scope_params=()):
     return out
 
 
-def plant_nested_numeric(rng, rec, minus=True, decimals=True):
-    """Plant a-(b-c), (a-b)-c, a/(b/c), (a/b)/c (divisors are non-zero constants) into a precondition and an effect value."""
+def plant_nested_numeric(rng, rec, minus=True, decimals=True, prefer=None):
+    """Plant a-(b-c), (a-b)-c, a/(b/c), (a/b)/c (divisors are non-zero constants) into a precondition and an effect value.
+    prefer: "minus" | "div" - the planted precondition is the right-nested form a op (b op c) of that operator."""
     r = copy.deepcopy(rec)
     acts = [a for a in r["actions"]]
     if not acts:
@@ -341,6 +392,10 @@ def plant_nested_numeric(rng, rec, minus=True, decimals=True):
     forms += [lambda: ["div", leaf(), ["div", nz(), nz()]], lambda: ["div", ["div", leaf(), nz()], nz()]]
     forms += [lambda: ["times", ["div", leaf(), nz()], leaf(False)], lambda: ["div", leaf(), ["times", nz(), nz()]]]
     e1 = rng.choice(forms)()
+    if prefer == "minus" and minus:
+        e1 = ["minus", leaf(), ["minus", leaf(), leaf()]]
+    elif prefer in ("minus", "div"):
+        e1 = ["div", leaf(), ["div", nz(), nz()]]
     cmp_ = [rng.choice(["le", "lt", "ge", "gt"]), e1, leaf()]
     if rng.random() < 0.5:
         cmp_ = [cmp_[0], cmp_[2], cmp_[1]]
@@ -371,15 +426,19 @@ def plant_nested_numeric(rng, rec, minus=True, decimals=True):
 DUR_CONST = [["i", 1], ["i", 2], ["i", 3], ["r", "1/2"], ["r", "5/2"], ["i", 5], ["r", "3/4"]]
 
 
-def durativize(rng, rec, lang="pddl", p=0.7, ice=0.0):
+def durativize(rng, rec, lang="pddl", p=0.7, ice=0.0, form=None, cond_form=None):
     """Turn some instantaneous actions of a recipe into durative ones.
     PDDL: conditions at start / at end / over all (and their closed combinations), effects at start / at end.
-    ANML (ice>0): additionally intermediate time points start+d / end-d."""
+    ANML (ice>0): additionally intermediate time points start+d / end-d.
+    form: duration-interval form of the first action, which is then always made durative (stratified workloads);
+    cond_form: interval form of that action's first condition ("start" | "end" | "open" | "closed" | "lopen" | "ropen"); an
+    action without precondition gets the first goal as condition."""
     r = copy.deepcopy(rec)
     acts = []
     any_dur = False
-    for a in r["actions"]:
-        if rng.random() > p:
+    for ai, a in enumerate(r["actions"]):
+        forced = form is not None and ai == 0
+        if rng.random() > p and not forced:
             acts.append(a)
             continue
         any_dur = True
@@ -394,15 +453,17 @@ def durativize(rng, rec, lang="pddl", p=0.7, ice=0.0):
                 return ["plus", rng.choice(static_like), rng.choice(DUR_CONST)]
             return rng.choice(static_like)
 
-        form = rng.choice(["fixed", "fixed", "closed", "open", "lopen", "ropen"])
-        if form == "fixed":
+        dform = rng.choice(["fixed", "fixed", "closed", "open", "lopen", "ropen"])
+        if forced:
+            dform = form
+        if dform == "fixed":
             dur = ["fixed", bound()]
         else:
             lo = rng.choice(DUR_CONST)
             hi = ["r", str(Fraction(lo[1]) + rng.choice([1, 2, Fraction(1, 2)]))]
             if rng.random() < 0.25 and static_like:
                 hi = ["plus", rng.choice(static_like), hi]
-            dur = [form, lo, hi]
+            dur = [dform, lo, hi]
 
         def tp(which):
             if ice and rng.random() < ice:
@@ -411,8 +472,17 @@ def durativize(rng, rec, lang="pddl", p=0.7, ice=0.0):
             return [which]
 
         conds = []
-        for c in a.get("pre", []):
+        pre = list(a.get("pre", []))
+        if forced and cond_form and not pre and r["goals"]:
+            pre = [r["goals"][0]]
+        for ci, c in enumerate(pre):
             x = rng.random()
+            if forced and cond_form and ci == 0:
+                if cond_form in ("start", "end"):
+                    conds.append([["point", [cond_form]], c])
+                else:
+                    conds.append([[cond_form, ["start"], ["end"]], c])
+                continue
             if x < 0.3:
                 iv = ["point", tp("start")]
             elif x < 0.45:
@@ -494,6 +564,17 @@ def add_timed_goals(rng, rec, n=1):
     return r
 
 
+def complete_action_costs(rec):
+    """MinimizeActionCosts documents that every action's cost MUST be set, through the mapping or the default
+    (model/metrics.py, get_action_cost): a cost metric that leaves an action without cost is not a valid model, and the PDDL
+    writer is entitled to choke on it. The base generator sometimes leaves the default unset: give it the default 0."""
+    m = rec.get("metric")
+    if m and m["kind"] == "costs" and m.get("default") is None and any(a["name"] not in m["costs"] for a in rec["actions"]):
+        rec = copy.deepcopy(rec)
+        rec["metric"]["default"] = ["i", 0]
+    return rec
+
+
 # ---- top-level: one recipe per case ---------------------------------------------------------------------------------------
 PDDL_BASE = dict(
     object_fluents=False,
@@ -506,10 +587,19 @@ PDDL_BASE = dict(
 )
 
 
-def gen_pddl_case(rng):
-    """-> (recipe, info) ; info: variant, rewrite_bool_assignments, generator features."""
+PDDL_VARIANT_CYCLE = ["classic", "ai-friendly", "temporal", "ai-friendly", "classic"]
+DURATION_FORMS = ["fixed", "closed", "open", "lopen", "ropen", "fixed"]
+COND_FORMS = ["open", "closed", "lopen", "ropen", "start", "open", "end"]
+
+
+def gen_pddl_case(rng, idx=None):
+    """-> (recipe, info) ; info: variant, rewrite_bool_assignments, generator features.
+    idx (position of the case in the run) stratifies the variant so that small runs cover every class."""
     x = rng.random()
-    variant = "classic" if x < 0.4 else ("ai-friendly" if x < 0.75 else "temporal")
+    if idx is None:
+        variant = "classic" if x < 0.4 else ("ai-friendly" if x < 0.75 else "temporal")
+    else:
+        variant = PDDL_VARIANT_CYCLE[idx % len(PDDL_VARIANT_CYCLE)]
     prof = dict(PDDL_BASE)
     adversarial = rng.random() < 0.65
     if adversarial:
@@ -522,22 +612,26 @@ def gen_pddl_case(rng):
         prof["metric"] = "costs" if y < 0.2 else None
         prof["max_actions"] = 2
     rec, feats = gen_problem(rng, prof)
+    rec = complete_action_costs(rec)
     rec = closed_world_booleans(rec)
     rec = finite_decimals(rec)
     rec = nonconstant_goals(rng, rec)
     has_dur = False
     if variant == "temporal":
-        rec, has_dur = durativize(rng, rec, "pddl")
+        rec, has_dur = durativize(rng, rec, "pddl", form=None if idx is None else DURATION_FORMS[(idx // len(PDDL_VARIANT_CYCLE)) % len(DURATION_FORMS)])
         if rng.random() < 0.5:
             rec = add_timed_effects(rng, rec)
     if rng.random() < 0.7:
-        rec = plant_nested_numeric(rng, rec, minus=variant != "ai-friendly")
+        prefer = None if idx is None else ("div" if variant == "ai-friendly" else ["minus", "div", None][(idx // len(PDDL_VARIANT_CYCLE)) % 3])
+        rec = plant_nested_numeric(rng, rec, minus=variant != "ai-friendly", prefer=prefer)
     clean = False
     if variant == "ai-friendly":
         rec = no_minus_no_negatives(rec)
         clean = rng.random() < 0.85
         if clean:
             rec = avoid_parser_traps(rec)
+        if rng.random() < 0.85:
+            rec = simple_goals(rec)
         # the third-party parser needs a :precondition in every action; a tautology that only simplification removes makes
         # the writer print `:precondition (and )`
         for a in rec["actions"]:
@@ -583,29 +677,58 @@ ANML_BASE = dict(
 )
 
 
-def gen_anml_case(rng):
+def trim_actions(rec, max_pre=1, max_eff=2):
+    """Keep at most max_pre preconditions and max_eff effects per action (smaller texts for the slow ANML reader)."""
+    r = copy.deepcopy(rec)
+    for a in r["actions"]:
+        a["pre"] = a.get("pre", [])[:max_pre]
+        a["effects"] = a["effects"][:max_eff]
+    return r
+
+
+def gen_anml_case(rng, idx=None):
+    """idx (position of the case in the run) stratifies variant / duration form / timed effects / timed goals so that small
+    runs cover every class (the ANML reader needs 0.5 - 3 CPU-seconds per text: the quick tier can only afford few cases)."""
     x = rng.random()
-    variant = "classic" if x < 0.45 else "temporal"
+    t = None
+    if idx is None:
+        variant = "classic" if x < 0.45 else "temporal"
+    else:
+        variant = "classic" if idx % 5 in (0, 4) else "temporal"
+        t = (idx // 5) * 3 + (idx % 5 - 1)  # running index of the temporal cases
     prof = dict(ANML_BASE)
     adversarial = rng.random() < 0.65
     if adversarial:
-        # names that start with a letter and contain a symbol are not mangled by the ANML writer (known defect): keep them rare
+        # names that start with a letter and contain a symbol are not mangled by the ANML writer (C38's subject; C19 skips
+        # such problems): keep them rare
         prof["names"] = adversarial_names("anml", p_symbols=0.03 if rng.random() < 0.85 else 0.2)
     if variant == "temporal":
         prof["max_actions"] = 2
+    if idx is not None:
+        # parsing time of the ANML reader grows steeply with the nesting depth of parentheses (nested infix_notation
+        # grammars) and the writer parenthesises everything: most cases use shallow expressions
+        prof["max_depth"] = 1 if rng.random() < 0.8 else 2
+        prof["max_fluents"] = 3
+        prof["max_actions"] = 2
+        prof["max_objects"] = 3
     rec, feats = gen_problem(rng, prof)
+    if idx is not None:
+        rec = trim_actions(rec)
+        rec["goals"] = rec["goals"][:1]
     rec = nonconstant_goals(rng, rec)
     if rng.random() < 0.8:
         rec = anml_friendly_bounds(rec)
     has_dur = False
     if variant == "temporal":
-        rec, has_dur = durativize(rng, rec, "anml", ice=0.3)
-        if rng.random() < 0.5:
+        rec, has_dur = durativize(
+            rng, rec, "anml", ice=0.3, form=None if t is None else DURATION_FORMS[t % len(DURATION_FORMS)], cond_form=None if t is None else COND_FORMS[(t // len(DURATION_FORMS) + t) % len(COND_FORMS)]
+        )
+        if (rng.random() < 0.5) if t is None else (t % 2 == 0):
             rec = add_timed_effects(rng, rec)
-        if rng.random() < 0.35:
+        if (rng.random() < 0.35) if t is None else (t % 3 == 0):
             rec = add_timed_goals(rng, rec)
     if rng.random() < 0.7:
-        rec = plant_nested_numeric(rng, rec)
+        rec = plant_nested_numeric(rng, rec, prefer=None if idx is None else ["minus", "div", None][idx % 3])
     if adversarial:
         rec = rename_params(rng, rec)
     return rec, {"variant": variant, "adversarial": adversarial, "features": feats, "durative": has_dur}
